@@ -7,6 +7,7 @@ import (
 	"errors"
 	"fmt"
 	"io"
+	"sync"
 
 	"github.com/bronlabs/bron-crypto/pkg/base"
 	"github.com/bronlabs/bron-crypto/pkg/base/algebra"
@@ -34,7 +35,7 @@ func NewGroup() *Group { return groupInstance }
 func (*Group) Name() string               { return "toyGq" }
 func (*Group) Order() cardinal.Cardinal   { return cardinal.New(Q) }
 func (*Group) ElementSize() int           { return ElemBytes }
-func (*Group) Contains(e *Elem) bool      { _, ok := dlog[e.v]; return e != nil && ok }
+func (*Group) Contains(e *Elem) bool      { return e != nil && InSubgroup(e.v) }
 func (*Group) OpIdentity() *Elem          { return &Elem{v: 1} }
 func (*Group) Generator() *Elem           { return &Elem{v: G} }
 func (*Group) ScalarStructure() algebra.Structure[*Scalar] { return NewScalarField() }
@@ -45,7 +46,7 @@ func (*Group) FromBytes(data []byte) (*Elem, error) {
 		return nil, errors.New("toy: bad element length")
 	}
 	v := binary.BigEndian.Uint64(data)
-	if _, ok := dlog[v]; !ok {
+	if !InSubgroup(v) {
 		return nil, errors.New("toy: not a subgroup element")
 	}
 	return &Elem{v: v}, nil
@@ -74,8 +75,12 @@ type Elem struct{ v uint64 }
 func (*Elem) Structure() algebra.Structure[*Elem] { return NewGroup() }
 func (e *Elem) Value() uint64                      { return e.v }
 
-// Log returns the discrete logarithm of e (table lookup).
+// Log returns the discrete logarithm of e (table lookup). In Big mode (no table) it returns an interned token
+// instead: equal elements <=> equal token, which is all the token-level specifications use.
 func (e *Elem) Log() uint64 {
+	if Big {
+		return intern(1, e.v)
+	}
 	k, ok := dlog[e.v]
 	if !ok {
 		panic(fmt.Sprintf("toy: %d is not in the subgroup", e.v))
@@ -91,12 +96,12 @@ func (e *Elem) Bytes() []byte {
 func (e *Elem) Clone() *Elem             { return &Elem{v: e.v} }
 func (e *Elem) Equal(x *Elem) bool       { return e.v == x.v }
 func (e *Elem) HashCode() base.HashCode  { return base.HashCode(e.v * 0x9E3779B97F4A7C15) }
-func (e *Elem) String() string           { return fmt.Sprintf("g^%d", e.Log()) }
-func (e *Elem) Op(x *Elem) *Elem         { return &Elem{v: e.v * x.v % P} }
+func (e *Elem) String() string           { return fmt.Sprintf("toy(%d)", e.v) }
+func (e *Elem) Op(x *Elem) *Elem         { return &Elem{v: mulmod(e.v, x.v, P)} }
 func (e *Elem) OpInv() *Elem             { return &Elem{v: powmod(e.v, P-2, P)} }
 func (e *Elem) IsOpIdentity() bool       { return e.v == 1 }
 func (e *Elem) ScalarOp(s *Scalar) *Elem { return &Elem{v: powmod(e.v, s.V.v, P)} }
-func (e *Elem) IsTorsionFree() bool      { _, ok := dlog[e.v]; return ok }
+func (e *Elem) IsTorsionFree() bool      { return InSubgroup(e.v) }
 func (e *Elem) IsDesignatedGenerator() bool { return e.v == G }
 
 func (e *Elem) MarshalBinary() ([]byte, error) { return e.Bytes(), nil }
@@ -107,4 +112,29 @@ func (e *Elem) UnmarshalBinary(data []byte) error {
 	}
 	e.v = x.v
 	return nil
+}
+
+var (
+	internMu  sync.Mutex
+	internTab = map[[2]uint64]uint64{}
+)
+
+// intern maps (namespace, value) to a small injective token.
+func intern(ns, v uint64) uint64 {
+	internMu.Lock()
+	defer internMu.Unlock()
+	k := [2]uint64{ns, v}
+	if t, ok := internTab[k]; ok {
+		return t
+	}
+	t := uint64(len(internTab) + 1)
+	internTab[k] = t
+	return t
+}
+
+// ReduceWide reduces little-endian bytes mod q exactly as Fq.SetRandom does with the bytes it reads.
+func ReduceWide(le []byte) *Scalar {
+	var s Scalar
+	s.V.SetBytesWide(le)
+	return &s
 }
